@@ -56,6 +56,15 @@ Theorem bypass_dominates :
 Proof. exact bypass_dominates_gen. Qed.
 Print Assumptions bypass_dominates.
 
+(* The bypass of the storage wrappers tests options.Consistency.Preference: over the read call sites
+   regenerated from the Go source (every Read* call of both engines, of ListObjects' reverse
+   expansion and pipeline store, of ListUsers, Expand and Read), every call passes options whose
+   Consistency.Preference is the request's preference; the allow-list of sites that may omit it is
+   empty at the pinned commit. *)
+Theorem reads_forward_consistency : forallb read_ok c10_reads = true.
+Proof. exact reads_forward_consistency_gen. Qed.
+Print Assumptions reads_forward_consistency.
+
 (* The request-level model the oracle replays: in every history and configuration a
    HIGHER_CONSISTENCY request -- and every request that passes through no cache -- is predicted to
    return exactly the reference answer (so a deviation is reported, see replay_verdict_hi). *)
@@ -92,6 +101,23 @@ Example bypass_dominates_nonvacuous :
      "IteratorDatastore.Read"; "IteratorDatastore.ReadUsersetTuples"; "IteratorDatastore.ReadStartingWithUser";
      "CheckQuery.Execute"; "Server.v2Check"; "Server.BatchCheck"; "ListObjectsQuery.Execute"]%string = true.
 Proof. exact table_not_vacuous. Qed.
+
+Example reads_forward_consistency_nonvacuous :
+  forallb (fun fm => has_read (fst fm) (snd fm))
+    [("Resolver.resolveRecursiveTTU", "Read"); ("Resolver.resolveRecursiveUserset", "ReadUsersetTuples");
+     ("Resolver.ttu", "Read"); ("Resolver.specificType", "ReadUserTuple");
+     ("Resolver.specificTypeAndRelation", "ReadUsersetTuples"); ("Resolver.specificTypeWildcard", "ReadUsersetTuples");
+     ("Recursive.buildTupleMapperForID", "Read"); ("Recursive.buildTupleMapperForID", "ReadUsersetTuples");
+     ("bottomUp.specificType", "ReadStartingWithUser");
+     ("LocalChecker.checkTTU", "Read"); ("LocalChecker.checkDirectUserTuple", "ReadUserTuple");
+     ("LocalChecker.checkPublicAssignable", "ReadUsersetTuples");
+     ("buildRecursiveMapper", "Read"); ("buildRecursiveMapper", "ReadUsersetTuples");
+     ("IteratorReadUsersetTuples", "ReadUsersetTuples"); ("IteratorReadStartingFromUser", "ReadStartingWithUser");
+     ("ValidatingStore.createIterator", "ReadStartingWithUser"); ("ListObjectsQuery.Execute", "WithStoreConsistency");
+     ("ReverseExpandQuery.readTuplesAndExecute", "ReadStartingWithUser");
+     ("ReverseExpandQuery.buildFilteredIterator", "ReadStartingWithUser");
+     ("listUsersQuery.expandDirect", "Read"); ("listUsersQuery.expandTTU", "Read")]%string = true.
+Proof. exact reads_not_vacuous. Qed.
 
 Example replay_higher_exact_nonvacuous :
   map snd (predictions ex_rcfg rs0 ex_hist) = [PExact 1; PExact 1; PAnyAnswer; PExact 0; PExact 0]%N /\
